@@ -339,13 +339,14 @@ class load(DataStreamProcessor):
     def process_resources(self, resources):
         yield from super(load, self).process_resources(resources)
         for descriptor, it in zip(self.resource_descriptors, self.iterators):
+            if self.limit_rows is not None:
+                # how many rows of the source to stream (whatever on_error does with them later)
+                it = self.limiter(it)
             if self.extract_missing_values:
                 it = self.missing_values_extractor(it)
             it = self.caster(descriptor, it)
             if self.strip:
                 it = self.stripper(it)
-            if self.limit_rows is not None:
-                it = self.limiter(it)
             yield it
 
     @staticmethod
